@@ -115,6 +115,32 @@ CLAIMED["C14"] = dict(
     technique="TLA+ function model over URI records (TLC) + guarded hook observation + TLC trace validation",
     ref="DESIGN.md section 6 C14")
 
+CLAIMED["C19"] = dict(
+    text="TLC explores every sequence of add() calls (from the empty message and from messages with repeated groups) on "
+         "the container model and checks it against the declarative statement (one group per kind in first-use order, "
+         "latest attribute per name); each history is replayed on the real IppAttributes and TLC validates groups(), "
+         "groups_of() and into_groups(); the value iterator is recorded for every value of C01's corpus and validated "
+         "against Iter.",
+    note="Bounded: <= 4/5 additions, 3 kinds x 2 names x 2 values. Member-name byte order computed by the harness.",
+    technique="TLA+ model checking of the container (TLC) + replay of TLC histories + TLC trace validation",
+    ref="DESIGN.md section 6 C19")
+CLAIMED["C10"] = dict(
+    text="The builders are modelled operationally (fields, then additions in code order) next to the declarative "
+         "statement of C10; TLC checks they agree for every call sequence and prints the sequences; the harness replays "
+         "each on the real builders and struct constructors with concretised arguments and payloads; TLC validates the "
+         "built request (header, groups, canonical printer-uri, payload intact) against IppOps.Build.",
+    note="Bounded: <= 3/4 calls per operation; version override needs a foreign IppOperation type (default checked).",
+    technique="TLA+ model checking operational vs declarative builder model (TLC) + replay + TLC trace validation",
+    ref="DESIGN.md section 6 C10")
+CLAIMED["C09"] = dict(
+    text="TLC checks the header-attribute order for every builder, <= 2 further additions and EVERY iteration order of "
+         "the attribute map (the map order is a quantified parameter of the encoder model; with the pinned 3-name list "
+         "the job-id counterexample appears at once); each construction is built on 64-512 fresh map instances and the "
+         "order read from the octets by the independent tokenizer is validated by TLC.",
+    note="The real map is sampled (fresh RandomState per instance); all orders are covered only in the model.",
+    technique="TLA+ model checking over all map iteration orders (TLC) + sampled real encodings validated by TLC",
+    ref="DESIGN.md section 6 C09")
+
 NOT_YET = "check not built yet in this round (planned, see DESIGN.md section 6)"
 
 
